@@ -39,7 +39,10 @@ func main() {
 	flag.Var(&fuels, "fuel", "Func#N=<Coq nat expression>: fuel of the N-th loop of Func (overrides the default)")
 	flag.Var(&params, "param", "pkg.Func=NAME: a call of this parameterless library function becomes the Coq variable NAME of the enclosing section")
 	flag.Var(&ifaces, "iface", "Struct.field.Method=NAME: a call of this interface method on a struct field becomes a call of the Coq function parameter NAME")
-	var shapes, objects, vias, devirts, packeds, splits, effs, stdpkgs multiFlag
+	var shapes, objects, vias, devirts, packeds, splits, effs, stdpkgs, mparams, errcodes multiFlag
+	strid := flag.Bool("strid", false, "string values are opaque comparable ids (Z; \"\" is 0): equal strings have equal ids")
+	flag.Var(&mparams, "mparam", "pkgname.Func=NAME: a call of this parameterless function (of the repository or of a library) with one result becomes the monadic parameter NAME : M Z")
+	flag.Var(&errcodes, "errcode", "pkgname.Var=N: error values are codes (Z; nil is 0, this package-level error value is N, fmt.Errorf / errors.New give -1)")
 	flag.Var(&stdpkgs, "stdpkg", "import path of a package of the toolchain's standard library (resolved through GOROOT/src) whose functions are translated too; roots in it are named pkgname.Func")
 	flag.Var(&effs, "eff-shape", "F: the skeleton of F is strict: the nesting of its conditions and, per statement, the calls and the reads of object fields in source order")
 	chans := flag.Bool("chan", false, "channel values are opaque handles (Z); make(chan T), close(c), <-c become calls of the parameters chan_make, chan_close, chan_recv")
@@ -63,7 +66,7 @@ func main() {
 	if *require != "" {
 		req = strings.Split(*require, ",")
 	}
-	text, err := translate(*repo, *pkg, strings.Split(*funcs, ","), fuels, params, ifaces, shapes, req, objects, vias, devirts, packeds, splits, effs, stdpkgs, *chans, *timeInt, *printShapes)
+	text, err := translate(*repo, *pkg, strings.Split(*funcs, ","), fuels, params, ifaces, shapes, req, objects, vias, devirts, packeds, splits, effs, stdpkgs, mparams, errcodes, *chans, *timeInt, *strid, *printShapes)
 	if err != nil {
 		fmt.Fprintln(os.Stderr, "go2coq:", err)
 		os.Exit(1)
